@@ -78,6 +78,8 @@ def oracle(toks, line):
         if w == "tvol" and not fits(guest(fr), v):
             return line == "abort"       # the value could not even be stored in sandbox memory
         return line == f"ok {ccast(TYPES[to], v)}"      # the plain static_cast on the underlying value
+    if c in ("ccastn", "rcastn"):
+        return line == ("ok null" if toks[1] in ("null", "0") else f"ok in0:{toks[1]}")
     if c in ("rcast", "ccast"):
         off = toks[-1]
         return line == ("ok null" if off in ("null", "0") else f"ok in0:{off}")     # the designated sandbox address never changes
@@ -166,6 +168,8 @@ def run(chk):
                 ops.append(f"rcast {w} {src} {dst} {o}")
         for o in ["null", "4", "65532", str(rng.randrange(1, BLK))]:
             ops.append(f"ccast {w} {o}")
+    for o in ["null", "4", "8", "4660", "65532", str(rng.randrange(1, BLK // 4) * 4)]:
+        ops += [f"ccastn {o}", f"rcastn {o}"]      # a backend with pointer-wide offsets as representation (ABI N), source in sandbox memory
     for v in (0, 1, -1, 2147483647, -2147483648, 2147483648, -2147483649, rng.randrange(-10 ** 9, 10 ** 9)):
         ops.append(f"cbopq {v}")
     for a, r in ((3, 7), (0, 0), (-1, 1), (1000, -1000), (rng.randrange(-10 ** 6, 10 ** 6), rng.randrange(-10 ** 6, 10 ** 6))):
